@@ -492,6 +492,8 @@ def m_partial_ord_int(c, a, b):
     ip = c.ip
     it = int_type(c.m.group(1))
     op = c.m.group(2)
+    if it is None and c.m.group(1) == 'Level':
+        return BV(1, 0)          # log::Level <= LevelFilter (the path is elided in a crate that imports log's names): logging disabled
     if it is None:
         raise Inconclusive("PartialOrd on " + c.m.group(1))
     if op in ('max', 'min'):
@@ -724,7 +726,7 @@ def m_boxed_future_poll(c, pin, cx):
 
 
 # ----------------------------------------------------------------------------- logging
-@model(r'^<log::Level as PartialOrd<log::LevelFilter>>::le$')
+@model(r'^<(?:log::)?Level as PartialOrd<(?:log::)?LevelFilter>>::le$')
 def m_log_le(c, a, b):
     return BV(1, 0)          # logging disabled: `lvl <= STATIC_MAX_LEVEL` is taken as false
 
